@@ -3,6 +3,7 @@ import OSProofs.Props.C11b
 import OSProofs.CodeShaped
 import OSProofs.Props.FL2
 import OSProofs.MonoArithInst
+import OSProofs.Props.PredictLoops
 #print axioms OS.C11_ranks_length
 #print axioms OS.C11_rankData_range
 #print axioms OS.C11_rankData_strict
@@ -47,3 +48,5 @@ import OSProofs.MonoArithInst
 #print axioms OS.FL_C11_ranks_tie
 #print axioms OS.FL_C11_ranks_lt_iff
 #print axioms OS.FL_C11_ranks_max_one
+#print axioms OS.predictRankLoop_eq
+#print axioms OS.predictRankLoop_eq_real
